@@ -31,7 +31,7 @@ Example C19_example :
   let t0 := (mkprogram [] [], @nil diag) in
   let t1 := (mkprogram [mkvardecl (R 0 7 0 16) (Some (R 0 14 0 16, "x")) (Some (R 0 7 0 13, "number")) None] [], @nil diag) in
   lsp_spec [t0; t1] [] [LOpen "a" 0; LOpen "b" 1; LChange "a" 1; LSyms "a"; LSyms "c"]
-  = [LPublished "a" []; LPublished "b" [(mkdiag (R 0 14 0 16) (DUnusedVar "x"), SevWarning)];
-     LPublished "a" [(mkdiag (R 0 14 0 16) (DUnusedVar "x"), SevWarning)];
+  = [LPublished "a" []; LPublished "b" [(mkdiag (R 0 14 0 16) (DUnusedVar "x"), OSevWarning)];
+     LPublished "a" [(mkdiag (R 0 14 0 16) (DUnusedVar "x"), OSevWarning)];
      LSymbols [mksymbol "x" "number" (R 0 14 0 16)]; LSymbols []].
 Proof. reflexivity. Qed.
